@@ -361,6 +361,11 @@ static inline int post_verif_moveaxis_to_transpose(sv_t shape, int source, int d
       && IMPLIES(ok, SV_LEN(OPT_VAL(ret)) == n
                   && IMPLIES(g < n, SV_AT(OPT_VAL(ret), g) == MOVEAXIS_AT(g, NORM(source, n), NORM(destination, n)) && SV_AT(OPT_VAL(ret), g) < n));
 }
+/* ---- moveaxis with axis LISTS (placeholder) */
+static inline int pre_verif_moveaxis_to_transpose_l2(sv_t shape, ai2_t source, ai2_t destination) { return SV_LEN(shape) <= CAP; }
+static inline int post_verif_moveaxis_to_transpose_l2(sv_t shape, ai2_t source, ai2_t destination, opt_sv_t ret) { return 1; }
+static inline int pre_verif_moveaxis_to_transpose_list(sv_t shape, svi_t source, svi_t destination) { return SV_LEN(shape) <= CAP; }
+static inline int post_verif_moveaxis_to_transpose_list(sv_t shape, svi_t source, svi_t destination, opt_sv_t ret) { return 1; }
 /* ------------------------------------------------------------------ flip (rank 3): slice step -1 exactly on the normalised axes */
 #define FLIP_STEP(ret, k) TUP_GET(ARR_AT(ret, k), 2)
 static inline int pre_verif_flip_slices3(int axis) { return AXIS_OK(axis, 3UL); }
